@@ -190,6 +190,102 @@ mutual
             | pair _ _ => simp at h
             | list _ _ => simp at h
             | map _ _ _ _ _ _ => simp at h
+            | left _ _ => simp at h
+            | right _ _ => simp at h
+            | set _ _ => simp at h
+            | lam _ _ _ => simp at h
+        | exec =>
+          simp only [exec, hs, bind, Except.bind] at h
+          cases hpop : s.pop2 with
+          | error e => simp [hpop] at h
+          | ok rs =>
+            obtain ⟨param, lam, s1⟩ := rs
+            simp only [hpop] at h
+            cases lam with
+            | lam a b body =>
+              simp only at h
+              split at h
+              · cases h
+              · cases hb : execSeq c f body { s1 with items := [param], prot := 0 } with
+                | error e => simp [hb] at h
+                | ok ls =>
+                  simp only [hb] at h
+                  cases hp1 : ls.pop1 with
+                  | error e => simp [hp1] at h
+                  | ok rl =>
+                    obtain ⟨res, ls'⟩ := rl
+                    simp only [hp1] at h
+                    split at h
+                    · cases h
+                    · split at h
+                      · cases h
+                      · rename_i _ hempty
+                        simp only [pure, Except.pure, Except.ok.injEq] at h
+                        subst h
+                        obtain ⟨p1, p2, p3, p4⟩ := pop2_spec hpop
+                        obtain ⟨q1, q2, q3, q4⟩ := pop1_spec hp1
+                        have hnil : ls'.items = [] := by
+                          cases hi : ls'.items with
+                          | nil => rfl
+                          | cons x xs => simp [hi] at hempty
+                        have gb := execSeq_good ok f body _ ls hb
+                        have g0 : Good s (State.withExtra { s1 with items := [param], prot := 0 } s1.items) := by
+                          refine Good.frame [param, Val.lam a b body] [param] s1.items [] true p1 ?_ p2 (by simp [State.withExtra, p3]) (by simp [State.withExtra, p4]) ?_
+                          · show (s1.items ++ [param]).Perm ([param] ++ s1.items)
+                            exact List.perm_append_comm
+                          · intro _ hc
+                            refine ⟨LC_cons.mpr ⟨(LC_cons.mp hc).1, LC_nil⟩, fun k => by simp [LS_cons, LS_nil, mintedSum],
+                              fun hz => LN_cons.mpr ⟨(LN_cons.mp hz).1, LN_nil⟩⟩
+                        have g1 := gb.lift s1.items
+                        refine g0.trans (g1.trans (Good.perm ?_ ?_ ?_ ?_))
+                        · show (s1.items ++ ls.items).Perm _
+                          refine List.Perm.trans ?_ (push_perm _ res).symm
+                          show (s1.items ++ ls.items).Perm (res :: s1.items)
+                          have : ls.items.Perm [res] := by rw [hnil] at q1; exact q1
+                          exact (List.Perm.append_left s1.items this).trans List.perm_append_comm
+                        · show s1.self = ls.self
+                          exact gb.self_eq.symm
+                        · show ls'.typedStores = ls.typedStores
+                          exact q3
+                        · show ls'.minted = ls.minted
+                          exact q4
+            | atom _ => simp at h
+            | ticket _ _ _ _ => simp at h
+            | pair _ _ => simp at h
+            | none _ => simp at h
+            | some _ => simp at h
+            | list _ _ => simp at h
+            | map _ _ _ _ _ _ => simp at h
+            | left _ _ => simp at h
+            | right _ _ => simp at h
+            | set _ _ => simp at h
+        | ifLeft bt bf =>
+          simp only [exec, hs, bind, Except.bind] at h
+          cases hpop : s.pop1 with
+          | error e => simp [hpop] at h
+          | ok rs =>
+            obtain ⟨o, s1⟩ := rs
+            simp only [hpop] at h
+            cases o with
+            | left v rt =>
+              have g1 : Good s (s1.push v) := by
+                refine Good.popPush [.left v rt] [v] [] true (pop1_spec hpop) (push_perm _ _) rfl (by simp [push_typed]) rfl ?_
+                vals_tac
+              exact g1.trans (execSeq_good ok f bt (s1.push v) s' h)
+            | right lt v =>
+              have g1 : Good s (s1.push v) := by
+                refine Good.popPush [.right lt v] [v] [] true (pop1_spec hpop) (push_perm _ _) rfl (by simp [push_typed]) rfl ?_
+                vals_tac
+              exact g1.trans (execSeq_good ok f bf (s1.push v) s' h)
+            | atom _ => simp at h
+            | ticket _ _ _ _ => simp at h
+            | pair _ _ => simp at h
+            | list _ _ => simp at h
+            | map _ _ _ _ _ _ => simp at h
+            | none _ => simp at h
+            | some _ => simp at h
+            | set _ _ => simp at h
+            | lam _ _ _ => simp at h
         | iter body =>
           simp only [exec, hs, bind, Except.bind] at h
           cases hpop : s.pop1 with
@@ -315,11 +411,30 @@ mutual
                   intro _ hc
                   exact ⟨hc, fun k => by simp [mintedSum], fun hz => hz⟩
                 · cases h
+            | set t xs =>
+              simp only at h
+              split at h
+              · simp only [pure, Except.pure, Except.ok.injEq] at h
+                subst h
+                refine Good.popPush [.set t xs] [.set t xs] [] true
+                  (pop1_spec hpop) (push_perm _ _) rfl (by simp [push_typed]) rfl ?_
+                intro _ hc
+                exact ⟨hc, fun k => by simp [mintedSum], fun hz => hz⟩
+              · cases h
             | atom _ => simp at h
             | ticket _ _ _ _ => simp at h
             | pair _ _ => simp at h
             | none _ => simp at h
             | some _ => simp at h
+            | left _ _ => simp at h
+            | right _ _ => simp at h
+            | lam _ _ _ => simp at h
+        | lambda _ _ _ => simp [simple] at hs
+        | apply => simp [simple] at hs
+        | left _ => simp [simple] at hs
+        | right _ => simp [simple] at hs
+        | emptySet _ => simp [simple] at hs
+        | mem => simp [simple] at hs
         | ticket => simp [simple] at hs
         | readTicket => simp [simple] at hs
         | splitTicket => simp [simple] at hs
